@@ -14,6 +14,11 @@ var unlockedStoreExempt = map[string]string{
 	"(*muxerStream).createFirstSegment|muxerStream.nextPart":    "first open part: never read by request code (checked by L5); the writer is the only goroutine that touches the open part",
 }
 
+// unlocked request-side reads that are ordered by typestate rather than by the muxer mutex
+var unlockedReadExempt = map[string]string{
+	"fileRAM.parts|(*storage.fileRAM).Reader": "typestate: the read is dominated by the `finalized` test (rule T7) and parts are only allocated on the open segment, which is finalized exactly when it leaves the open slot and before it is published (rule P1)",
+}
+
 func l3Exempt(c *Ctx, fn *ssa.Function, f *types.Var) string {
 	return unlockedStoreExempt[FuncName(fn)+"|"+c.fieldName(f)]
 }
